@@ -28,6 +28,8 @@ func main() {
 			dsl += fmt.Sprintf("    define e%d: e%d or e%d\n", i, i+1, i+1)
 		case "c": // ttu only twice
 			dsl += fmt.Sprintf("    define e%d: e%d from parent or e%d from parent\n", i, i+1, i+1)
+		case "e": // plain chain
+			dsl += fmt.Sprintf("    define e%d: e%d\n", i, i+1)
 		case "d": // two different relations a_i, b_i both referencing next level
 			dsl += fmt.Sprintf("    define e%d: e%d and e%d\n", i, i+1, i+1)
 		}
